@@ -175,3 +175,6 @@ TEXT["C08"].update(engine="verus+kani",
           "no matching rule => NotAuthenticated; first matching rule lacks it => NotAuthorised. The welcome page, /metrics, /api/v1/leases.json and everything behind the DNS ACL handler (routing, cache, forwarding) can only be reached with the matching permission granted; a refused HTTP client gets the 403 response, a refused DNS client RefusedByAcl. "
           "Complete (Kani): Prefix4/Prefix6::contains <=> the top min(len,W) bits agree with the written prefix, for all addresses and lengths, including IPv4-mapped clients and ::ffff:a.b.c.d/len prefixes.",
     note="Assumed: dispatch of Prefix::contains over the address families and NetAddr accessors (opaque); lock acquisition as plain read; hyper's routing of method/path to an arm. v6 prefixlen <= 128 established by the loader fix c95f480.")
+
+TEXT["C05"].update(note=TEXT["C05"]["note"].replace(" ICMPv6 (radv/icmppkt.rs parse*) is NOT yet under contract; its serialiser is (C17).", "") + " ICMPv6: radv/icmppkt.rs parse / parse_nd_rtr_* are under contract (unit icmpparse).",
+    level=TEXT["C05"]["level"].replace("every LLDP Deserialise::from_wire.", "every LLDP Deserialise::from_wire, the ICMPv6 router solicitation/advertisement decoder (radv/icmppkt.rs parse*)."))
